@@ -1,6 +1,6 @@
 SPECIFICATION Spec
 CONSTANTS
-  Skeletons = {"root","prop","item","or","ref","refor","reftor"}
+  Skeletons = {"root","prop","item","or","ref","refor","reftor","ref2"}
   Bounds = {3, 4, 6, 9, 14}
   Kinds = {"num","str","arr"}
 INVARIANTS TypeOK NoRulesAccepted Emit
